@@ -182,13 +182,8 @@ def step (st : St) (op : String) : St × Option String :=
     match getObj st ((kvNat kv "obj").getD 0) with
     | none => (st, some "noobj")
     | some o =>
-      match objectKeys H o.leaf st.store o.key with
-      | .error _ => (st, some "err")
-      | .ok keys =>
-        let (s', ok) := (keys ++ [o.key]).foldl (fun (acc : Store × Bool) k =>
-          if !acc.2 then acc
-          else if (acc.1.get k).isSome then (acc.1.filter (·.1 != k), true) else (acc.1, false)) (st.store, true)
-        ({ st with store := s' }, some (if ok then "ok" else "err"))
+      let (s', ok) := Cafs.delete H o.leaf st.store o.key
+      ({ st with store := s' }, some (if ok then "ok" else "err"))
   | "read" :: rest =>
     -- fault-free reads (C01): exact result
     let kv := kvs rest
